@@ -431,6 +431,26 @@ func init() {
 						} else if nh, _ := ff2.Frame.Hash(); !bytes.Equal(nh, fh) {
 							viol("frame-hash-changed:FastForwardResponse JSON", fmt.Sprintf("frame with %d peers, root depth %d: hash changed through the FastForwardResponse JSON encoding", np, depth), map[string]interface{}{"peers": np, "depth": depth})
 						}
+						// a frame that arrived through the transport is read by the receiver (Reset lists its events in
+						// consensus order): reading must not change it. Variant with nine frame events, as decoded.
+						{
+							multi := mkFrame(np, depth, perm)
+							base := multi.Events[0]
+							for k := 1; k <= 8; k++ {
+								multi.Events = append(multi.Events, &hg.FrameEvent{Core: base.Core, Round: 4, LamportTimestamp: 30 + k, Witness: false})
+							}
+							raw, _ := json.Marshal(&net.FastForwardResponse{Frame: *multi})
+							var ff3 net.FastForwardResponse
+							if err := json.Unmarshal(raw, &ff3); err == nil {
+								h1, _ := ff3.Frame.Hash()
+								listed := ff3.Frame.SortedFrameEvents()
+								h2, _ := ff3.Frame.Hash()
+								frameEvals++
+								if !bytes.Equal(h1, h2) {
+									viol("frame-changed-by-reading:SortedFrameEvents", fmt.Sprintf("frame with %d peers, root depth %d, 9 events, decoded from the FastForwardResponse JSON: its hash differs after SortedFrameEvents() listed its %d events", np, depth, len(listed)), map[string]interface{}{"peers": np, "depth": depth})
+								}
+							}
+						}
 						for _, r := range ff2.Frame.Roots {
 							for _, fe := range r.Events {
 								if ok, _ := fe.Core.Verify(); !ok {
